@@ -90,6 +90,38 @@ async def _scenario(kind: str) -> dict:
     return {"fails": [list(f) for f in fails], "covered": covered}
 
 
+async def equal_owners_case(make_owner: Callable[[], Any], get_signal: Callable[[Any], Any], publish: Callable[[Any], Any]) -> list:
+    """Two distinct owners that compare (and hash) equal are two channels: what one publishes reaches only its own subscribers
+    and carries it as the source."""
+    fails: list = []
+    a, b = make_owner(), make_owner()
+    got_a: list = []
+    got_b: list = []
+
+    async def consumer(stream: Any, sink: list) -> None:
+        async for ev in stream:
+            sink.append(ev)
+
+    if get_signal(a) is get_signal(b):
+        fails.append(("equal-owners", "two distinct but equal owners share one bound signal"))
+    async with get_signal(a).stream_events() as sa, get_signal(b).stream_events() as sb:
+        async with anyio.create_task_group() as tg:
+            tg.start_soon(consumer, sa, got_a)
+            tg.start_soon(consumer, sb, got_b)
+            await anyio.lowlevel.checkpoint()
+            ev = await publish(b)
+            for _ in range(4):
+                await anyio.lowlevel.checkpoint()
+            tg.cancel_scope.cancel()
+    if ev is not None and getattr(ev, "source", None) is not b:
+        fails.append(("equal-owners", f"an event published by one owner carries the other (equal) owner as source: {getattr(ev, 'source', None)!r}"))
+    if got_a:
+        fails.append(("equal-owners", "the subscriber of an equal but different owner received the event"))
+    if len(got_b) != 1:
+        fails.append(("equal-owners", f"the publishing owner's subscriber received {len(got_b)} events instead of 1"))
+    return fails
+
+
 def run_in_subprocess(kind: str, tries: int = 3) -> dict:
     import json
     import subprocess
